@@ -311,7 +311,7 @@ func seqClasses(sc SeqCase) []string {
 var propSequence = &kit.Prop[SeqCase]{
 	ID: "C16", Name: "sequence",
 	Rule: "2..4 generated exchanges (bodies up to 30 kB of different sizes, all framings and codings) are recorded by ONE har.Logger - one after the other or overlapping (all requests, then all responses), some on another goroutine - and only then are the bodies forwarded and the log exported ONCE; every entry is compared with its generated description and with its JSON round trip; every sequence is repeated 3 times; non-trivial = at least two responses with a body",
-	Gen: genSeq, Run: runSeq,
+	Gen:  genSeq, Run: runSeq,
 	NonTrivial: func(sc SeqCase) bool { b, _, _ := seqSizes(sc); return b >= 2 },
 	Classes:    seqClasses,
 	Gates: map[string]float64{"nontrivial": 0.5, "later-smaller": 0.25, "later-larger": 0.25, "other-goroutine": 0.3, "overlapping": 0.3,
